@@ -18,16 +18,16 @@ open LolHtml.Lemmas.Sim (Inv)
 variable {κ : Type}
 
 section
-variable {env : Env κ} {inp : Bytes} {Pend : κ → Bool} {Good : κ → Prop}
+variable {env : Env κ} {inp : Bytes} {Pend : κ → Bool} {Good : κ → Prop} {K : Bool} {Uerr : Err → Prop}
 variable {L : Labels} {TT : TLabels} {P : PLabels} {S : SLabels}
 
 /-- scanner registers at rest -/
 def ScanIdle (s : ScanRegs) : Prop := s.tagStart = none ∧ s.chSeqStart = none ∧ s.isInEndTag = false
 
 /-- the lexer has just been loaded from the scanner's bookmark -/
-structure HeadStart (env : Env κ) (L : Labels) (S : SLabels) (Pend : κ → Bool) (Good : κ → Prop) (inp : Bytes)
+structure HeadStart (env : Env κ) (L : Labels) (S : SLabels) (Pend : κ → Bool) (Good : κ → Prop) (K : Bool) (inp : Bytes)
     (p : Parser κ) : Prop where
-  ex : ∃ bm, HeadDone env L S Pend inp (⟨p.scanC, .scanner p.scanR, p.x⟩ : M κ) bm ∧
+  ex : ∃ bm, HeadDone env L S Pend K inp (⟨p.scanC, .scanner p.scanR, p.x⟩ : M κ) bm ∧
     p.lexC.state = env.tbl.textState bm.textType ∧ p.lexC.nextPos = bm.pos ∧ p.lexR.lexemeStart = bm.pos ∧
     p.lexC.lastStartTagNameHash = bm.lastStartTagNameHash ∧ p.lexR.fd = bm.fd
   good : Good p.x.sink
@@ -38,9 +38,9 @@ theorem tagKey_isStart {tok : TagOutline} {K : Bool × Nat} (h : tagKey tok = K)
 
 /-- **the re-lexing run**: loaded from the bookmark, the lexer walks the head silently, finishes the
 name of a tag of the hinted kind and continues in the "inside the re-lexed tag" mode -/
-theorem headStart_run (hx : XLaws env.ops inp Pend Good) (hside : RelexSide env.tbl L TT P S) (p : Parser κ)
-    (last : Bool) (hd : p.directive = .lex) (h : HeadStart env L S Pend Good inp p) :
-    LoopPost P (LexX Pend Good) (LexJ Pend Good) (runLoop env inp (defaultFuel inp) (p.machine last)) := by
+theorem headStart_run (hx : XLaws env.ops inp Pend Good K Uerr) (hside : RelexSide env.tbl L TT P S) (p : Parser κ)
+    (last : Bool) (hd : p.directive = .lex) (h : HeadStart env L S Pend Good K inp p) :
+    LoopPost Uerr P (LexX Pend Good K) (LexJ Pend Good) (runLoop env inp (defaultFuel inp) (p.machine last)) := by
   obtain ⟨⟨bm, hdone, h1, h2, h3, h4, h5⟩, hgood, hinv⟩ := h
   have hm : p.machine last = ⟨{ p.lexC with isLast := last }, .lexer p.lexR, p.x⟩ := by
     simp [Parser.machine, hd]
@@ -58,7 +58,7 @@ theorem headStart_run (hx : XLaws env.ops inp Pend Good) (hside : RelexSide env.
   rcases relex_step_fin (x := p.x) hside.relex hG hheadH with ⟨herr, _⟩ | ⟨l1, q, A', hsel, hqmem, hfc, hst, htag, hfd1, hls1, heq⟩
   · unfold WalkPost
     rw [herr]
-    simp [U2err, U2]
+    exact hx.noU (by simp [U3err, U2err, U2, guardSite])
   · rw [heq]
     -- the table facts about the finishing arm
     have hsd : ∃ sd, env.tbl.state? G.sfin = some sd ∧ A' ∈ sd.arms := by
@@ -111,15 +111,15 @@ theorem headStart_run (hx : XLaws env.ops inp Pend Good) (hside : RelexSide env.
 /-- parser invariant between runs of the parsing loop (and between `parse` calls, over the bytes the
 next call will see first) -/
 def PX0 (env : Env κ) (L : Labels) (TT : TLabels) (P : PLabels) (S : SLabels) (Pend : κ → Bool) (Good : κ → Prop)
-    (inp : Bytes) (p : Parser κ) : Prop :=
+    (K : Bool) (inp : Bytes) (p : Parser κ) : Prop :=
   match p.directive with
   | .scan => ScanAll env L TT P S Pend inp (⟨p.scanC, .scanner p.scanR, p.x⟩ : M κ) ∧ Good p.x.sink ∧ Inv p.x.sim
-  | .lex => LexX Pend Good (P.at p.lexC.state) (⟨p.lexC, .lexer p.lexR, p.x⟩ : M κ) ∧ ScanIdle p.scanR
+  | .lex => LexX Pend Good K (P.at p.lexC.state) (⟨p.lexC, .lexer p.lexR, p.x⟩ : M κ) ∧ ScanIdle p.scanR
 
 /-- inside one `parse`: additionally the lexer may have just been loaded from the scanner's bookmark -/
 def PX1 (env : Env κ) (L : Labels) (TT : TLabels) (P : PLabels) (S : SLabels) (Pend : κ → Bool) (Good : κ → Prop)
-    (inp : Bytes) (p : Parser κ) : Prop :=
-  PX0 env L TT P S Pend Good inp p ∨ (p.directive = .lex ∧ HeadStart env L S Pend Good inp p)
+    (K : Bool) (inp : Bytes) (p : Parser κ) : Prop :=
+  PX0 env L TT P S Pend Good K inp p ∨ (p.directive = .lex ∧ HeadStart env L S Pend Good K inp p)
 
 theorem ScanAll.setLast {c : Common} {s : ScanRegs} {x : Ctx κ} (b : Bool)
     (h : ScanAll env L TT P S Pend inp (⟨c, .scanner s, x⟩ : M κ)) :
@@ -136,7 +136,7 @@ theorem ScanAll.setConsumed {c : Common} {s : ScanRegs} {x : Ctx κ} (n : Nat)
 /-- the scanner restarted by the lexer's bookmark satisfies all its invariants, over any input -/
 theorem scan_loaded (hside : RelexSide env.tbl L TT P S) (p : Parser κ) (bm : Bookmark)
     (hidle : ScanIdle p.scanR) (hg : Good p.x.sink) (hi : Inv p.x.sim) (hp : Pend p.x.sink = false) (inp' : Bytes) :
-    PX0 env L TT P S Pend Good inp' (loadBookmark env .scan bm p) := by
+    PX0 env L TT P S Pend Good K inp' (loadBookmark env .scan bm p) := by
   obtain ⟨i1, i2, i3⟩ := hidle
   simp only [PX0, loadBookmark]
   refine ⟨⟨?_, ?_, ?_⟩, hg, hi⟩
@@ -147,27 +147,27 @@ theorem scan_loaded (hside : RelexSide env.tbl L TT P S) (p : Parser κ) (bm : B
   · exact HSem_of_none (by simpa [M.ts] using i1)
 
 theorem LexX.setConsumed {ab : Ab} {c : Common} {l : LexRegs} {x : Ctx κ} (n : Nat)
-    (h : LexX Pend Good ab (⟨c, .lexer l, x⟩ : M κ)) :
-    LexX Pend Good ab (⟨c, .lexer l, { x with prevConsumed := n }⟩ : M κ) := by
+    (h : LexX Pend Good K ab (⟨c, .lexer l, x⟩ : M κ)) :
+    LexX Pend Good K ab (⟨c, .lexer l, { x with prevConsumed := n }⟩ : M κ) := by
   obtain ⟨c0, l0, x0, hm, h1, h2, h3⟩ := h
   simp only [M.mk.injEq, Regs.lexer.injEq] at hm
   obtain ⟨rfl, rfl, rfl⟩ := hm
   exact ⟨_, _, _, rfl, h1, h2, h3⟩
 
 /-- **the invariant through `Parser.parseLoop`** -/
-theorem parseLoop_X (hx : XLaws env.ops inp Pend Good) (hside : RelexSide env.tbl L TT P S) (last : Bool) (n : Nat)
-    (p : Parser κ) (h : PX1 env L TT P S Pend Good inp p) :
-    (∀ e, (Parser.parseLoop env inp last n p).2 = .error e → ¬ U2err e) ∧
+theorem parseLoop_X (hx : XLaws env.ops inp Pend Good K Uerr) (hside : RelexSide env.tbl L TT P S) (last : Bool) (n : Nat)
+    (p : Parser κ) (h : PX1 env L TT P S Pend Good K inp p) :
+    (∀ e, (Parser.parseLoop env inp last n p).2 = .error e → ¬ Uerr e) ∧
     (∀ k, (Parser.parseLoop env inp last n p).2 = .ok k → last = false →
-      ∀ data, PX0 env L TT P S Pend Good (inp.drop k ++ data) (Parser.parseLoop env inp last n p).1) := by
+      ∀ data, PX0 env L TT P S Pend Good K (inp.drop k ++ data) (Parser.parseLoop env inp last n p).1) := by
   induction n generalizing p with
   | zero =>
     simp only [Parser.parseLoop]
-    exact ⟨fun e he => by simp only [Except.error.injEq] at he; subst he; simp [U2err, U2], fun k hk => by cases hk⟩
+    exact ⟨fun e he => by simp only [Except.error.injEq] at he; subst he; exact hx.noU (by simp [U3err, U2err, U2, guardSite]), fun k hk => by cases hk⟩
   | succ n ih =>
     cases hd : p.directive with
     | scan =>
-      have h0 : PX0 env L TT P S Pend Good inp p := by
+      have h0 : PX0 env L TT P S Pend Good K inp p := by
         rcases h with h | ⟨h, _⟩
         · exact h
         · rw [hd] at h; cases h
@@ -206,14 +206,14 @@ theorem parseLoop_X (hx : XLaws env.ops inp Pend Good) (hside : RelexSide env.tb
         right
         refine ⟨by simp [loadBookmark], ⟨⟨bm, ?_, rfl, rfl, rfl, rfl, rfl⟩, hg', hi'⟩⟩
         simpa [loadBookmark, Parser.store] using hdone
-      · exact ⟨fun e he => by simp only [Except.error.injEq] at he; subst he; simp [U2err], fun k hk => by cases hk⟩
+      · exact ⟨fun e he => by simp only [Except.error.injEq] at he; subst he; exact hx.noU (by simp [U3err, U2err, guardSite]), fun k hk => by cases hk⟩
       · rename_i e hne hres
         rw [hres] at h2
         exact ⟨fun e' he => by simp only [Except.error.injEq] at he; subst he; exact h2, fun k hk => by cases hk⟩
     | lex =>
       have hm : p.machine last = ⟨{ p.lexC with isLast := last }, .lexer p.lexR, p.x⟩ := by
         simp [Parser.machine, hd]
-      have hloop : LoopPost P (LexX Pend Good) (LexJ Pend Good) (runLoop env inp (defaultFuel inp) (p.machine last)) ∧
+      have hloop : LoopPost Uerr P (LexX Pend Good K) (LexJ Pend Good) (runLoop env inp (defaultFuel inp) (p.machine last)) ∧
           ScanIdle p.scanR := by
         rcases h with h | ⟨_, h⟩
         · simp only [PX0, hd] at h
@@ -237,7 +237,7 @@ theorem parseLoop_X (hx : XLaws env.ops inp Pend Good) (hside : RelexSide env.tb
         refine ⟨fun e he => (by cases he), fun k hk hl data => ?_⟩
         rw [hr]
         simp only [PX0, Parser.store, hd]
-        have : LexX Pend Good (P.at c.state) (⟨c, .lexer l, x⟩ : M κ) := ⟨c, l, x, rfl, by rw [hr] at hcore; exact hcore⟩
+        have : LexX Pend Good K (P.at c.state) (⟨c, .lexer l, x⟩ : M κ) := ⟨c, l, x, rfl, by rw [hr] at hcore; exact hcore⟩
         exact ⟨this.setConsumed _, hidle⟩
       · rename_i d bm hres
         rw [hres] at h2
@@ -251,28 +251,28 @@ theorem parseLoop_X (hx : XLaws env.ops inp Pend Good) (hside : RelexSide env.tb
         · simpa [Parser.store] using hg'
         · simpa [Parser.store] using hi'
         · simpa [Parser.store] using hnorm.2
-      · exact ⟨fun e he => by simp only [Except.error.injEq] at he; subst he; simp [U2err], fun k hk => by cases hk⟩
+      · exact ⟨fun e he => by simp only [Except.error.injEq] at he; subst he; exact hx.noU (by simp [U3err, U2err, guardSite]), fun k hk => by cases hk⟩
       · rename_i e hne hres
         rw [hres] at h2
         exact ⟨fun e' he => by simp only [Except.error.injEq] at he; subst he; exact h2, fun k hk => by cases hk⟩
 
 /-- **`Parser::parse`** keeps the invariant and reports no `U2` error -/
-theorem parse_X (hx : XLaws env.ops inp Pend Good) (hside : RelexSide env.tbl L TT P S) (last : Bool)
-    (p : Parser κ) (h : PX0 env L TT P S Pend Good inp p) :
-    (∀ e, (Parser.parse env inp last p).2 = .error e → ¬ U2err e) ∧
+theorem parse_X (hx : XLaws env.ops inp Pend Good K Uerr) (hside : RelexSide env.tbl L TT P S) (last : Bool)
+    (p : Parser κ) (h : PX0 env L TT P S Pend Good K inp p) :
+    (∀ e, (Parser.parse env inp last p).2 = .error e → ¬ Uerr e) ∧
     (∀ k, (Parser.parse env inp last p).2 = .ok k → last = false →
-      ∀ data, PX0 env L TT P S Pend Good (inp.drop k ++ data) (Parser.parse env inp last p).1) :=
+      ∀ data, PX0 env L TT P S Pend Good K (inp.drop k ++ data) (Parser.parse env inp last p).1) :=
   parseLoop_X hx hside last _ p (Or.inl h)
 
 
 /-- one run of the parsing loop from the invariant: no error at a `U2` site (`Err.internal` is still
 visible at this level) -/
-theorem run_X (hx : XLaws env.ops inp Pend Good) (hside : RelexSide env.tbl L TT P S) (last : Bool)
-    (p : Parser κ) (h : PX1 env L TT P S Pend Good inp p) (e : Err)
-    (he : (runLoop env inp (defaultFuel inp) (p.machine last)).2 = .err e) : ¬ U2err e := by
+theorem run_X (hx : XLaws env.ops inp Pend Good K Uerr) (hside : RelexSide env.tbl L TT P S) (last : Bool)
+    (p : Parser κ) (h : PX1 env L TT P S Pend Good K inp p) (e : Err)
+    (he : (runLoop env inp (defaultFuel inp) (p.machine last)).2 = .err e) : ¬ Uerr e := by
   cases hd : p.directive with
   | scan =>
-    have h0 : PX0 env L TT P S Pend Good inp p := by
+    have h0 : PX0 env L TT P S Pend Good K inp p := by
       rcases h with h | ⟨h, _⟩
       · exact h
       · rw [hd] at h; cases h
@@ -289,7 +289,7 @@ theorem run_X (hx : XLaws env.ops inp Pend Good) (hside : RelexSide env.tbl L TT
   | lex =>
     have hm : p.machine last = ⟨{ p.lexC with isLast := last }, .lexer p.lexR, p.x⟩ := by
       simp [Parser.machine, hd]
-    have hloop : LoopPost P (LexX Pend Good) (LexJ Pend Good) (runLoop env inp (defaultFuel inp) (p.machine last)) := by
+    have hloop : LoopPost Uerr P (LexX Pend Good K) (LexJ Pend Good) (runLoop env inp (defaultFuel inp) (p.machine last)) := by
       rcases h with h | ⟨_, h⟩
       · simp only [PX0, hd] at h
         rw [hm]
